@@ -227,7 +227,19 @@ impl TcpNameserver {
         }
     }
 
-    async fn send_tcp_query(&mut self, msg: TcpNameserverMessage) -> Result<(), Error> {
+    async fn send_tcp_query(&mut self, mut msg: TcpNameserverMessage) -> Result<(), Error> {
+        /* The id has to be unique amongst the queries outstanding on this connection.  If the
+         * randomly chosen id is already in use, move on to the next free one.
+         */
+        if self.qid2reply.len() > usize::from(u16::MAX / 2) {
+            let _ = msg.out_reply.send(Err(Error::Internal(
+                "Too many outstanding TCP queries".into(),
+            )));
+            return Ok(());
+        }
+        while self.qid2reply.contains_key(&msg.out_query.qid) {
+            msg.out_query.qid = msg.out_query.qid.wrapping_add(1);
+        }
         assert!(
             self.qid2reply
                 .insert(msg.out_query.qid, msg.out_reply)
